@@ -31,7 +31,7 @@ Inductive exc :=
 | ENotOpened    (* ScrapliConnectionNotOpened: transport closed *)
 | EPriv         (* ScrapliPrivilegeError *)
 | ECallback     (* an exception raised by the user's callback *)
-| EType         (* ScrapliTypeError from a property setter *)
+| EType         (* ScrapliTypeError from a property setter / from an argument check (commands not a list, ...) *)
 | EInterrupt    (* KeyboardInterrupt / asyncio.CancelledError: a BaseException *)
 | EOther.       (* any other exception *)
 
@@ -228,7 +228,11 @@ Inductive op :=
 | OSendInteractive (o : ov) (r : bres)
 | OSendAndRead (o : ov) (rd : Z) (p : pre) (evs : list rdev) (e : rend) (failed : bool)
 | OReadCallback (init : pre) (rt : Z) (gs : list stage)
-| ONet (acq : pre) (x : op).   (* NetworkDriver: acquire the privilege level first; send_config(s) too *)
+| ONet (acq : pre) (x : op).   (* NetworkDriver: acquire the privilege level first; send_config(s) too.
+                                  Also what ANY public method does before it reaches a decorated call: an
+                                  argument check that raises ([PNoIo e]: commands not a list, file not there)
+                                  ends the call before an override is applied.  An empty batch is
+                                  [OSendCommands o stop []]: no decorated call at all, the state is untouched. *)
 
 Fixpoint run_op (c : cfg) (x : op) (s : st) : st * outcome :=
   match x with
